@@ -11,7 +11,7 @@ import ibldsp.fourier as F
 import ibldsp.utils as U
 import ibldsp.waveforms as W
 from pyvc.api import harness, bounded, property_meta, run_function
-from pyvc.core import SV, term, fresh_name
+from pyvc.core import SV, term, fresh_name, Unsupported
 from pyvc import arrays as A
 from pyvc.arrays import SArr
 
@@ -48,6 +48,9 @@ def _run(H, ndim, axis, per_trace, dtype):
         it.ctx.oblige(f"fshift.input_untouched.{tag}", A.forall(idx, lambda: z3.Implies(rng, w.read(tuple(idx)) == w0(tuple(idx)))), "post", "a real-valued input array is left untouched", assume=False)
         log = it.ctx.fft_log
         kinds = [(e["kind"], e["axis"]) for e in log]
+        if [kd for kd, _ in kinds] != ["rfft", "rfft", "irfft"]:
+            # another way of building the phase ramp / transforming: the structural obligations below do not apply (the bounded stand-in still decides)
+            raise Unsupported(f"cannot identify the unit-delay / data / inverse transforms of fshift (found {[kd for kd, _ in kinds]})")
         it.ctx.oblige(f"fshift.transforms.{tag}", z3.BoolVal(kinds == [("rfft", ax), ("rfft", ax), ("irfft", ax)]), "post", "unit-delay ramp and data are transformed along the shift axis, and back along the same axis")
         if kinds == [("rfft", ax), ("rfft", ax), ("irfft", ax)]:
             it.ctx.oblige(f"fshift.inverse_length.{tag}", A.T(log[2]["out"].shape[ax]) == dims[ax], "post", "the inverse transform returns the original number of samples (odd and even lengths)")
